@@ -25,8 +25,8 @@ func init() {
 				return nil, nil, nil, err
 			}
 			cov := bfsCoverage(out, "explicit-state BFS over sequences of wallet-database operations on the real ldb backend: begin/commit/rollback, close+reopen, db.Update with commit and with a failing closure, "+
-				"create top-level bucket, NewBucket/DeleteBucket of a nested bucket, Put/Delete over 4 keys (incl. one containing the path separator and 0xff) x 2 values in 3 buckets, empty key/value, Clear; "+
-				"after every sequence every bucket is read back completely (Get incl. foreign keys, GetByPrefix x5, BucketNames, 7 iterator ranges, 5 Seeks) through the open write transaction and through a fresh read transaction "+
+				"create top-level bucket, NewBucket/DeleteBucket of a nested bucket, Put/Delete over 5 keys (incl. one containing the path separator, 0xff, and a 0xff-suffixed key) x 2 values in 3 buckets (one of them a sibling whose name starts with the other's name), empty key/value, Clear; "+
+				"after every sequence every bucket is read back completely (Get incl. foreign keys, GetByPrefix x6, BucketNames, 8 iterator ranges (incl. a 0xff-suffixed prefix), 5 Seeks) through the open write transaction and through a fresh read transaction "+
 				"and compared with a nested-map reference; states deduplicated by (committed model, transaction view, dirty set, budgets); distinct_nontrivial = distinct (committed, in-transaction) contents")
 			cov["bounds"] = map[string]interface{}{"depth": depth, "opts": opts}
 			// a second, small pass over the real on-disk CreateDB/OpenDB path (128 MiB write buffer)
